@@ -74,6 +74,9 @@ func NewSolver(timeoutMs int) *Solver {
 }
 
 func (s *Solver) send(x string) {
+	if s.dead {
+		return
+	}
 	if s.log != nil {
 		io.WriteString(s.log, x)
 	}
@@ -113,7 +116,15 @@ func (s *Solver) Assert(t *Term) {
 func (s *Solver) Check() string {
 	t0 := time.Now()
 	s.send("(check-sat)\n")
-	line := s.readLine()
+	// z3 occasionally ignores its own -t limit; a hard limit kills the process and the query counts as unknown
+	// (the caller rebuilds the solver context from the path condition)
+	line, ok := s.readLineTimeout(time.Duration(s.timeoutMs+15000) * time.Millisecond)
+	if !ok {
+		s.Time += time.Since(t0)
+		s.Queries++
+		s.Unknown++
+		return "unknown"
+	}
 	s.Time += time.Since(t0)
 	s.Queries++
 	switch line {
@@ -129,6 +140,69 @@ func (s *Solver) Check() string {
 		}
 	}
 	return line
+}
+
+func (s *Solver) readLineTimeout(d time.Duration) (string, bool) {
+	type res struct {
+		l   string
+		err error
+	}
+	ch := make(chan res, 1)
+	go func() {
+		l, err := s.out.ReadString('\n')
+		ch <- res{l, err}
+	}()
+	select {
+	case r := <-ch:
+		if r.err != nil {
+			s.dead = true
+			panic("solver died: " + r.err.Error() + " " + r.l)
+		}
+		l := strings.TrimSpace(r.l)
+		if strings.HasPrefix(l, "(error") {
+			s.dead = true
+			panic("solver error: " + l)
+		}
+		return l, true
+	case <-time.After(d):
+		s.dead = true
+		s.cmd.Process.Kill()
+		<-ch
+		s.cmd.Wait()
+		if liveSolver == s {
+			liveSolver = nil
+		}
+		return "", false
+	}
+}
+
+func (s *Solver) readRawTimeout(d time.Duration) (string, bool) {
+	type res struct {
+		l   string
+		err error
+	}
+	ch := make(chan res, 1)
+	go func() {
+		l, err := s.out.ReadString('\n')
+		ch <- res{l, err}
+	}()
+	select {
+	case r := <-ch:
+		if r.err != nil {
+			s.dead = true
+			panic("solver died in get-value")
+		}
+		return r.l, true
+	case <-time.After(d):
+		s.dead = true
+		s.cmd.Process.Kill()
+		<-ch
+		s.cmd.Wait()
+		if liveSolver == s {
+			liveSolver = nil
+		}
+		return "", false
+	}
 }
 
 func (s *Solver) readLine() string {
@@ -180,10 +254,9 @@ func (s *Solver) Model(vars []*Term) map[string]uint64 {
 	depth := 0
 	var buf strings.Builder
 	for {
-		l, err := s.out.ReadString('\n')
-		if err != nil {
-			s.dead = true
-			panic("solver died in get-value")
+		l, ok := s.readRawTimeout(time.Duration(s.timeoutMs+15000) * time.Millisecond)
+		if !ok {
+			return m // solver killed: the caller sees s.dead
 		}
 		buf.WriteString(l)
 		for _, c := range l {
